@@ -433,6 +433,29 @@ fn mode_replay(args: &[String]) -> i32 {
     };
     if let Ok(text) = std::fs::read_to_string(&path) {
         if let Ok(v) = serde_json::from_str::<Value>(&text) {
+            if v["kind"] == "rerun" {
+                let vs: u64 = v["verif_seed"].as_str().and_then(|x| x.parse().ok()).unwrap_or(DEFAULT_SEED);
+                let tier = v["tier"].as_str().unwrap_or("quick").to_string();
+                let ep = v["episode"].as_u64().unwrap_or(0);
+                let n_sys = v["systematic_episodes"].as_u64().unwrap_or(32);
+                let mut hashes = vec![];
+                for _ in 0..3 {
+                    match spawn_worker(vs, &tier, ep, n_sys, false, 600) {
+                        Ok(w) => hashes.push(format!("{}", w["log_hash"])),
+                        Err(e) => {
+                            println!("HARNESS-ERROR {}", e);
+                            return 2;
+                        }
+                    }
+                }
+                println!("  event-log hashes of three executions: {:?}", hashes);
+                if hashes.windows(2).any(|w| w[0] != w[1]) {
+                    println!("REPLAY-VIOLATION class=same_execution_twice_differs episode={}", ep);
+                    return 1;
+                }
+                println!("REPLAY-OK no violation reproduced");
+                return 0;
+            }
             if v["kind"] == "hashsweep" {
                 let key = match v["key"].as_str().and_then(Key::decode) {
                     Some(k) => k,
@@ -1101,11 +1124,24 @@ fn mode_run(args: &[String]) -> i32 {
         // hash keys served to a thread the simulator did not label (the code under test started a thread of its
         // own): such threads get a fixed stream, so runs stay repeatable; reported in the evidence, not an error
     }
+    // An episode executed twice from the same seed: every choice the simulator makes (workload, hash keys, schedule
+    // decisions) is a pure function of the seed — 10^4s of double runs on the unchanged tree never differed — so when
+    // the hash keys served are identical and the event logs still differ, the code under test behaved differently in
+    // two executions with identical inputs, histories, schedules and hash seeds: that is C10 failing, not the harness.
+    // (If the key streams themselves differ the harness is at fault.)
     let doubles = doubles.lock().unwrap().clone();
+    let mut rerun_violation: Option<(u64, String, String)> = None;
     for (i, a, b) in &doubles {
         if a != b {
-            println!("HARNESS-ERROR episode {} is not deterministic: {} vs {}", i, a, b);
-            return 2;
+            let (la, ka) = a.split_once('/').unwrap_or((a, ""));
+            let (lb, kb) = b.split_once('/').unwrap_or((b, ""));
+            if ka != kb {
+                println!("HARNESS-ERROR episode {} is not deterministic (hash-key streams differ): {} vs {}", i, a, b);
+                return 2;
+            }
+            if rerun_violation.is_none() {
+                rerun_violation = Some((*i, la.to_string(), lb.to_string()));
+            }
         }
     }
 
@@ -1245,6 +1281,24 @@ fn mode_run(args: &[String]) -> i32 {
     } else {
         hash_sweep(&tier, verif_seed, jobs)
     };
+    let mut rerun_line: Option<String> = None;
+    if let Some((ep, la, lb)) = &rerun_violation {
+        std::fs::create_dir_all(&replay_dir).ok();
+        let path = format!("{}/C10-rerun-seed{}-ep{}.json", replay_dir, verif_seed, ep);
+        let file = json!({
+            "property": "C10", "engine": "simhist", "kind": "rerun", "verif_seed": verif_seed.to_string(), "tier": tier, "episode": ep,
+            "systematic_episodes": n_sys,
+            "violation": {"class": "same_execution_twice_differs", "log_hashes": [la, lb],
+                          "explanation": "the episode was executed twice in fresh processes from the same seed (same workload, hash keys, schedule policy); the recorded events (build results included) differ"},
+            "how_to_replay": "/verif/check --replay <this file>",
+        });
+        std::fs::write(&path, serde_json::to_string_pretty(&file).unwrap()).ok();
+        println!("simhist: episode {} executed twice from the same seed gave different event logs ({} vs {})", ep, la, lb);
+        rerun_line = Some(format!(
+            "VIOLATION-JSON {}",
+            json!({"property": "C10", "replay": path, "class": "same_execution_twice_differs", "signature": format!("same_execution_twice_differs|{}", ep)})
+        ));
+    }
     let mut sweep_line: Option<String> = None;
     if let Some(v) = &sweep_violation {
         std::fs::create_dir_all(&replay_dir).ok();
@@ -1413,6 +1467,10 @@ fn mode_run(args: &[String]) -> i32 {
         println!("{}", l);
     }
     if let Some(l) = sweep_line {
+        println!("{}", l);
+        exit = 1;
+    }
+    if let Some(l) = rerun_line {
         println!("{}", l);
         exit = 1;
     }
